@@ -146,7 +146,8 @@ func c16prop(r *simkit.Run) {
 		rawReq = oddTarget
 	}
 	spec := exchangeSpec{rawRequest: []byte(rawReq), peerAddr: "192.0.2.7:5555", passHost: rapid.Bool().Draw(rt, "pass-host"),
-		plan: backendPlan{response: respBytes, headLen: headLen, cutAt: -1}}
+		neighbour: rapid.SampledFrom([]int{0, 0, 0, 1, 2}).Draw(rt, "neighbour-forwarder"),
+		plan:      backendPlan{response: respBytes, headLen: headLen, cutAt: -1}}
 	// only with a backend that answers completely: when the round trip fails the transport waits for its writer
 	// before it reports the failure, so "the probe after the start of the response" is not a possible order then
 	if len(reqBody) > 0 && fault == "none" && len(respBytes)-headLen >= 2*lateProbeFirstPart {
